@@ -54,6 +54,7 @@ func runC04(p *core.Prog, r *core.Result) {
 		"R4.4 on the no-cycle path results[i].Error = wait(targets[i]) and results[i].Target = targets[i].target for the same i, for all i",
 		"R4.5/R4.6 wait loops re-test under lock, every writer of the waited-for state wakes the waiters on all exits",
 		"R4.7 Run returns wait() of the target obtained for the requested label",
+		"R4.9 the loader the runner calls is injective on labels: (*Project).LoadTarget hands out the registry entry stored under the canonical string of exactly the label it was asked for - the runner deduplicates by label string, so a second lookup under another key (an alias, a default name) gives one target two runner entries and it executes twice",
 		"R4.8 the only outcome that lets a requester continue without waiting - the cyclic-dependency error - is constructed only where the walk over published waiting sets has come back to the requester's own target (a diamond or a repeated label is not a cycle)",
 	}
 	r.NotDecided = []string{"absence of duplicate execution under every interleaving as an observed fact (only the lock/ownership structure that makes it so)", "outcome equality as observed at run time"}
@@ -214,6 +215,8 @@ func runC04(p *core.Prog, r *core.Result) {
 	}
 	// R4.8
 	checkCycleErrorOrigin(p, r, a, "R4.8")
+	// R4.9
+	checkLoaderInjective(p, r)
 	r.Check(okRun, "R4.7", "runner.Run#result", p.Pos(a.Run.Pos()), "Run starts the target for its label argument and returns that target's wait()", "Run does not return wait() of the started target for the requested label")
 }
 
@@ -341,6 +344,102 @@ func checkStartAtomic(p *core.Prog, r *core.Result, a *runnerAnchors) {
 			idle = idle && p.FactsAt(pt).Find(isIdle)
 		}
 		r.Check(idle, "R4.1", "runner.(*target).start#spawn-on-idle", p.InstrPos(g), "the target is spawned only when the tested status was idle", "the spawn is not conditioned on status == idle: a running or finished target can be spawned again")
+	}
+}
+
+// checkLoaderInjective implements R4.9.
+func checkLoaderInjective(p *core.Prog, r *core.Result) {
+	lt := need(p, r, "R4.9", "", "Project", "LoadTarget")
+	if lt == nil {
+		return
+	}
+	var raw *ssa.Parameter
+	for _, prm := range lt.Params {
+		if b, ok := prm.Type().Underlying().(*types.Basic); ok && b.Kind() == types.String {
+			raw = prm
+		}
+	}
+	// the label that was asked for: label.Parse(raw), in LoadTarget; a parameter receiving it, in a helper
+	requested := func(v ssa.Value, site *ssa.Call) bool {
+		if prm, ok := v.(*ssa.Parameter); ok && site != nil {
+			for i, q := range prm.Parent().Params {
+				if q == prm && i < len(site.Call.Args) {
+					v = site.Call.Args[i]
+				}
+			}
+		}
+		e, ok := v.(*ssa.Extract)
+		if !ok || e.Index != 0 {
+			return false
+		}
+		c, ok := e.Tuple.(*ssa.Call)
+		return ok && core.IsCallTo(c, pkgLabel, "Parse") && raw != nil && c.Call.Args[0] == ssa.Value(raw)
+	}
+	type src struct {
+		lk   *ssa.Lookup
+		site *ssa.Call
+	}
+	var sources []src
+	opaque := false
+	var collect func(v ssa.Value, site *ssa.Call, depth int)
+	collect = func(v ssa.Value, site *ssa.Call, depth int) {
+		switch x := core.Unwrap(v).(type) {
+		case *ssa.Phi:
+			for _, e := range x.Edges {
+				collect(e, site, depth)
+			}
+		case *ssa.Extract:
+			switch t := x.Tuple.(type) {
+			case *ssa.Lookup:
+				sources = append(sources, src{t, site})
+			case *ssa.Call:
+				h := core.Callee(t)
+				if h == nil || h.Pkg != lt.Pkg || h.Blocks == nil || depth >= 2 || site != nil {
+					opaque = true
+					return
+				}
+				for _, ret := range core.ReturnsOf(h) {
+					vals := core.RetVals(ret)
+					if x.Index < len(vals) && !core.IsNilConst(vals[x.Index]) {
+						collect(vals[x.Index], t, depth+1)
+					}
+				}
+			default:
+				opaque = true
+			}
+		case *ssa.Lookup:
+			sources = append(sources, src{x, site})
+		case *ssa.Const:
+		default:
+			opaque = true
+		}
+	}
+	n := 0
+	for _, ret := range core.ReturnsOf(lt) {
+		vals := core.RetVals(ret)
+		if len(vals) != 2 || !core.IsNilConst(vals[1]) {
+			continue
+		}
+		n++
+		v := vals[0]
+		if mi, ok := v.(*ssa.MakeInterface); ok {
+			v = mi.X
+		}
+		collect(v, nil, 0)
+	}
+	r.Floor("R4.9", n, 1, "successful returns of LoadTarget")
+	if opaque || len(sources) == 0 {
+		r.Unk("R4.9", "dawn.(*Project).LoadTarget#source", p.Pos(lt.Pos()), "cannot see which registry entry LoadTarget hands out")
+		return
+	}
+	for i, s := range sources {
+		construct := fmt.Sprintf("dawn.(*Project).LoadTarget#lookup-%d", i+1)
+		okMap := core.LoadOfField(s.lk.X, pkgRoot, "Project", "targets")
+		okKey := false
+		if c, ok := s.lk.Index.(*ssa.Call); ok && core.IsMethod(c, pkgLabel, "Label", "String") {
+			okKey = requested(c.Call.Args[0], s.site)
+		}
+		r.Check(okMap && okKey, "R4.9", construct, p.InstrPos(s.lk), "the target handed to the runner is Project.targets[l.String()] for the label l parsed from the requested string", "LoadTarget can hand out a registry entry found under a key other than the canonical string of the requested label: two label strings then name one target, the runner (which deduplicates by label string) creates two entries for it, and the target is loaded and evaluated twice in one build, concurrently")
 	}
 }
 
@@ -472,6 +571,7 @@ func runC05(p *core.Prog, r *core.Result) {
 		"R5.4 wait/wake discipline of target and gate (no lost wake-up)",
 		"R5.6 a request whose cycle check failed returns without waiting for anything (every wait() in EvaluateTargets is on the nil-error edge of the cycle check), so a detected cycle's edges are withdrawn and never walked again",
 		"R5.5 dependencies are awaited outside a slot (needed for termination at limit 1)",
+		"R5.7 slots are conserved: run takes one and gives it back on every exit (including a failed load), EvaluateTargets gives one back and retakes it on every exit; no other function moves slots - a leaked slot drains the pool and the build hangs on an acyclic graph",
 	}
 	r.NotDecided = []string{"termination under every interleaving (needs schedule exploration or a model; in particular the recursion of check through a cycle not containing the root)", "that every cycle is reported"}
 	a := resolveRunner(p, r, "R5.0")
@@ -624,6 +724,8 @@ func runC05(p *core.Prog, r *core.Result) {
 
 	// R5.5
 	checkWaitOutsideSlot(p, r, a, "R5.5")
+	// R5.7
+	checkSlotPairing(p, r, a, "R5.7")
 }
 
 // waitSites lists the points of EvaluateTargets at which dependencies are awaited: calls of (*target).wait, and
@@ -681,31 +783,18 @@ func checkWaitOutsideSlot(p *core.Prog, r *core.Result, a *runnerAnchors, rule s
 	}
 }
 
-// ---------------------------------------------------------------------------------------------
-// C09
-
-func runC09(p *core.Prog, r *core.Result) {
-	r.Decided = []string{
-		"R9.1 slot pairing on every path: run = enter…exit(deferred), EvaluateTargets = exit…enter(deferred); only these two functions move slots",
-		"R9.2 gate.capacity only under gate.m; the zero test, Wait and decrement share one critical section; exit increments then signals",
-		"R9.5 loading and evaluating a target happen inside a slot",
-		"R9.6 waiting on dependencies happens outside a slot",
-		"R9.7 the limit is runtime.NumCPU(), stored unmodified",
-	}
-	r.NotDecided = []string{"the instantaneous bound as a property of schedules (follows from the above under Mutex/Cond semantics, which are trusted)"}
-	a := resolveRunner(p, r, "R9.0")
-	if a == nil {
-		return
-	}
-	// R9.1 who may call + pairing
+// checkSlotPairing: only run and EvaluateTargets move slots, and each does so in a pair that is balanced on every
+// exit (R9.1; as R5.7 the same fact is a termination condition: a slot that is not given back on some exit drains
+// the pool, and once it is empty every later enter blocks for ever).
+func checkSlotPairing(p *core.Prog, r *core.Result, a *runnerAnchors, rule string) {
 	for _, g := range []*ssa.Function{a.enter, a.exit} {
 		if u := p.FuncValueUses(g); len(u) > 0 {
-			r.Bad("R9.1", fname(g)+"#value-use", p.InstrPos(u[0]), "gate method escapes as a value")
+			r.Bad(rule, fname(g)+"#value-use", p.InstrPos(u[0]), "gate method escapes as a value")
 		}
 		for _, c := range p.StaticCallers(g) {
 			f := c.Parent()
 			if f != a.run && f != a.evalTargets {
-				r.Bad("R9.1", fname(g)+"#caller:"+fname(f), p.InstrPos(c.(ssa.Instruction)), "slot moved outside run/EvaluateTargets: pairing cannot be established")
+				r.Bad(rule, fname(g)+"#caller:"+fname(f), p.InstrPos(c.(ssa.Instruction)), "slot moved outside run/EvaluateTargets: pairing cannot be established")
 			}
 		}
 	}
@@ -728,7 +817,7 @@ func runC09(p *core.Prog, r *core.Result) {
 			}
 		}
 		if len(firstCalls) != 1 || len(deferred) != 1 || len(other) != 0 {
-			r.Bad("R9.1", construct, p.Pos(fn.Pos()), "%s: expected exactly one %s call and one deferred %s call, found %d/%d and %d other slot operations", what, first.Name(), second.Name(), len(firstCalls), len(deferred), len(other))
+			r.Bad(rule, construct, p.Pos(fn.Pos()), "%s: expected exactly one %s call and one deferred %s call, found %d/%d and %d other slot operations", what, first.Name(), second.Name(), len(firstCalls), len(deferred), len(other))
 			return
 		}
 		fi, di := firstCalls[0].(ssa.Instruction), deferred[0].(ssa.Instruction)
@@ -763,11 +852,32 @@ func runC09(p *core.Prog, r *core.Result) {
 				uncond = false
 			}
 		}
-		r.Check(ok && same && uncond, "R9.1", construct, p.InstrPos(fi), what+": "+first.Name()+" once, unconditionally, immediately followed by `defer "+second.Name()+"` on the same gate: balanced on every exit including panics",
+		r.Check(ok && same && uncond, rule, construct, p.InstrPos(fi), what+": "+first.Name()+" once, unconditionally, immediately followed by `defer "+second.Name()+"` on the same gate: balanced on every exit including panics",
 			what+": the "+first.Name()+"/"+second.Name()+" pair is not balanced on every path (the deferred "+second.Name()+" must directly follow an unconditional "+first.Name()+" on the same gate)")
 	}
 	pair(a.run, a.enter, a.exit, "run holds a slot for its whole body")
 	pair(a.evalTargets, a.exit, a.enter, "EvaluateTargets gives its slot back while waiting")
+
+}
+
+// ---------------------------------------------------------------------------------------------
+// C09
+
+func runC09(p *core.Prog, r *core.Result) {
+	r.Decided = []string{
+		"R9.1 slot pairing on every path: run = enter…exit(deferred), EvaluateTargets = exit…enter(deferred); only these two functions move slots",
+		"R9.2 gate.capacity only under gate.m; the zero test, Wait and decrement share one critical section; exit increments then signals",
+		"R9.5 loading and evaluating a target happen inside a slot",
+		"R9.6 waiting on dependencies happens outside a slot",
+		"R9.7 the limit is runtime.NumCPU(), stored unmodified",
+	}
+	r.NotDecided = []string{"the instantaneous bound as a property of schedules (follows from the above under Mutex/Cond semantics, which are trusted)"}
+	a := resolveRunner(p, r, "R9.0")
+	if a == nil {
+		return
+	}
+	// R9.1 who may call + pairing
+	checkSlotPairing(p, r, a, "R9.1")
 
 	// R9.2
 	n := guarded(p, r, "R9.2", core.GuardSpec{Rel: "runner", Type: "gate", Field: "capacity", Lock: "m"})
